@@ -48,6 +48,28 @@ Example C11_example :
   run_commission c None [(10, 100)] == 5.
 Proof. split; vm_compute; reflexivity. Qed.
 
+(* which schedule a contract follows (FutureInfoStore.get_future_info): its own bundle entry or its underlying's, overridden by the
+   configuration's entry for the contract or for the underlying - and an entry keyed by one contract never reaches another contract, so two
+   contracts of one underlying differ exactly by their own entries *)
+Theorem C11_schedule_frame : forall dc du cc cu c c' u o f, c <> c' ->
+  future_schedule dc du (set_at cc c' o) cu c u = future_schedule dc du cc cu c u /\
+  future_schedule (set_at dc c' f) du cc cu c u = future_schedule dc du cc cu c u.
+Proof. intros dc du cc cu c c' u o f N. split; [exact (schedule_frame_custom dc du cc cu c c' u o N)|exact (schedule_frame_default dc du cc cu c c' u f N)]. Qed.
+Theorem C11_schedule_siblings : forall dc du cc cu c c' u, dc c = None -> dc c' = None -> cc c = None -> cc c' = None ->
+  future_schedule dc du cc cu c u = future_schedule dc du cc cu c' u.
+Proof. exact schedule_siblings. Qed.
+Theorem C11_schedule_contract_override : forall dc du cc cu c u f o, pick (dc c) (du u) = Some f -> cc c = Some o ->
+  future_schedule dc du cc cu c u = Some (apply_override f o).
+Proof. exact schedule_contract_override_wins. Qed.
+Example C11_schedule_example :
+  let f := {| fc_by_money := true; fc_mult := 10; fc_open := 1 # 10000; fc_close := 1 # 10000; fc_close_today := 2 # 10000; fc_cmult := 1 |} in
+  let o := {| ov_by_money := Some false; ov_open := Some 3; ov_close := None; ov_close_today := Some 0 |} in
+  let du := fun u => if Nat.eqb u 0 then Some f else None in
+  let cc := set_at (fun _ => None) 7%nat (Some o) in
+  future_schedule (fun _ => None) du cc (fun _ => None) 7 0 = Some (apply_override f o) /\
+  future_schedule (fun _ => None) du cc (fun _ => None) 8 0 = Some f /\ fc_by_money (apply_override f o) = false.
+Proof. cbv zeta. repeat split. Qed.
+
 Print Assumptions C11_split_independent.
 Print Assumptions C11_tax.
 Print Assumptions C11_pit_rate.
@@ -55,3 +77,6 @@ Print Assumptions C11_futures.
 Print Assumptions C11_nonneg_commission.
 Print Assumptions C11_nonneg_tax.
 Print Assumptions C11_nonneg_futures.
+Print Assumptions C11_schedule_frame.
+Print Assumptions C11_schedule_siblings.
+Print Assumptions C11_schedule_contract_override.
